@@ -629,3 +629,125 @@ Proof.
   intro Z. apply strip_incl in Z. exact (split_ch_pieces LF q x Hx Z).
 Qed.
 
+
+(* ================================================================== string literals are opaque (JS, after fix a149087) *)
+(* JS literal body: plain characters (not the quote character, not a backslash; LF allowed) and backslash pairs
+   (backslash + ANY character); quote characters: single quote, double quote, backtick *)
+Inductive jitem (q0 : ch) : str -> Prop :=
+| jit_plain : forall c, c <> q0 -> c <> BSL -> jitem q0 [c]
+| jit_esc : forall c, jitem q0 [BSL; c].
+Inductive jbody (q0 : ch) : str -> Prop :=
+| jb_nil : jbody q0 []
+| jb_cons : forall i r, jitem q0 i -> jbody q0 r -> jbody q0 (i ++ r).
+Inductive jseg := JCode (s : str) | JLit (q0 : ch) (b : str).
+Definition jlit_text (q0 : ch) (b : str) : str := q0 :: b ++ [q0].
+Definition jrender_seg (s : jseg) : str := match s with JCode c => c | JLit q0 b => jlit_text q0 b end.
+Definition jrender (segs : list jseg) : str := concat (map jrender_seg segs).
+Fixpoint jplaceholders_raw (k : nat) (segs : list jseg) : str :=
+  match segs with
+  | [] => []
+  | JCode c :: r => c ++ jplaceholders_raw k r
+  | JLit _ _ :: r => placeholder k ++ jplaceholders_raw (S k) r
+  end.
+Fixpoint jplaceholders (k : nat) (segs : list jseg) : str :=
+  match segs with
+  | [] => []
+  | JCode c :: r => map tabfix c ++ jplaceholders k r
+  | JLit _ _ :: r => placeholder k ++ jplaceholders (S k) r
+  end.
+Definition jliterals (segs : list jseg) : list str :=
+  flat_map (fun s => match s with JCode _ => [] | JLit q0 b => [jlit_text q0 b] end) segs.
+Definition jquote (q0 : ch) : Prop := q0 = APOS \/ q0 = QT \/ q0 = BQ.
+Definition jquote_free (c : str) : Prop := ~ In APOS c /\ ~ In QT c /\ ~ In BQ c.
+Inductive jwf_segs : list jseg -> Prop :=
+| jwf_nil : jwf_segs []
+| jwf_code : forall c r, jquote_free c -> jwf_segs r -> jwf_segs (JCode c :: r)
+| jwf_lit : forall q0 b r, jquote q0 -> jbody q0 b -> jwf_segs r -> jwf_segs (JLit q0 b :: r).
+
+Lemma jscan_body : forall q0 b, jquote q0 -> jbody q0 b -> forall rest pos,
+  scan_js q0 (b ++ q0 :: rest) pos = Some (pos + length b + 1)%nat.
+Proof.
+  intros q0 b Hq Hb. induction Hb as [|i r Hi Hr IH]; intros rest pos.
+  - cbn [app scan_js length]. rewrite N.eqb_refl. f_equal. lia.
+  - assert (Hb : BSL <> q0) by (destruct Hq as [->|[->| ->]]; discriminate).
+    destruct Hi as [c H1 H2 | c].
+    + cbn [app scan_js]. rewrite (proj2 (N.eqb_neq c q0) H1), (proj2 (N.eqb_neq c BSL) H2). rewrite IH. f_equal. cbn [length]. lia.
+    + cbn [app scan_js]. rewrite (proj2 (N.eqb_neq BSL q0) Hb). change (N.eqb BSL BSL) with true. cbn iota. rewrite IH. f_equal. cbn [length]. lia.
+Qed.
+
+Lemma jlit_match_literal : forall q0 b rest, jquote q0 -> jbody q0 b ->
+  lit_match_js (jlit_text q0 b ++ rest) = Some (length (jlit_text q0 b)).
+Proof.
+  intros q0 b rest Hq Hb. unfold jlit_text. cbn [app]. unfold lit_match_js.
+  assert (E : N.eqb q0 APOS || N.eqb q0 QT || N.eqb q0 BQ = true) by (destruct Hq as [->|[->| ->]]; reflexivity).
+  rewrite E. rewrite <- app_assoc. cbn [app]. rewrite (jscan_body q0 b Hq Hb rest 1). f_equal. cbn [length]. rewrite app_length. cbn [length]. lia.
+Qed.
+
+Lemma jsep_code : forall c rest k, jquote_free c ->
+  sep lit_match_js (c ++ rest) 0 k = (c ++ fst (sep lit_match_js rest 0 k), snd (sep lit_match_js rest 0 k)).
+Proof.
+  induction c as [|x c IH]; intros rest k [H1 [H2 H3]].
+  - cbn [app]. destruct (sep lit_match_js rest 0 k); reflexivity.
+  - cbn [app sep].
+    assert (Ex : lit_match_js (x :: c ++ rest) = None).
+    { unfold lit_match_js.
+      rewrite (proj2 (N.eqb_neq x APOS)) by (intro E; apply H1; left; rewrite E; reflexivity).
+      rewrite (proj2 (N.eqb_neq x QT)) by (intro E; apply H2; left; rewrite E; reflexivity).
+      rewrite (proj2 (N.eqb_neq x BQ)) by (intro E; apply H3; left; rewrite E; reflexivity). reflexivity. }
+    rewrite Ex. rewrite IH.
+    + destruct (sep lit_match_js rest 0 k); reflexivity.
+    + repeat split; intro Hi; [apply H1 | apply H2 | apply H3]; right; exact Hi.
+Qed.
+
+Lemma jsep_literal : forall L rest k, lit_match_js (L ++ rest) = Some (length L) -> (2 <= length L)%nat ->
+  sep lit_match_js (L ++ rest) 0 k =
+  (placeholder k ++ fst (sep lit_match_js rest 0 (S k)), L :: snd (sep lit_match_js rest 0 (S k))).
+Proof.
+  intros L rest k Hm Hl. destruct L as [|c L]; [cbn in Hl; lia|].
+  cbn [app] in *. cbn [sep]. rewrite Hm. cbn [length Nat.sub]. rewrite Nat.sub_0_r.
+  rewrite sep_skip. destruct (sep lit_match_js rest 0 (S k)) as [f ls]. cbn [fst snd].
+  f_equal. f_equal. change (c :: L ++ rest) with ((c :: L) ++ rest).
+  change (S (length L)) with (length (c :: L)). rewrite firstn_app, firstn_all, Nat.sub_diag. cbn [firstn]. apply app_nil_r.
+Qed.
+
+Theorem jsep_segments : forall segs k, jwf_segs segs ->
+  sep lit_match_js (jrender segs) 0 k = (jplaceholders_raw k segs, jliterals segs).
+Proof.
+  intros segs k H. revert k. induction H as [|c r Hc Hr IH | q0 b r Hq Hb Hr IH]; intro k.
+  - reflexivity.
+  - unfold jrender. cbn [map concat jrender_seg]. fold (jrender r). rewrite (jsep_code c (jrender r) k Hc). rewrite IH. reflexivity.
+  - unfold jrender. cbn [map concat jrender_seg]. fold (jrender r).
+    rewrite (jsep_literal (jlit_text q0 b) (jrender r) k (jlit_match_literal q0 b (jrender r) Hq Hb)) by (unfold jlit_text; cbn [length]; rewrite app_length; cbn [length]; lia).
+    rewrite IH. reflexivity.
+Qed.
+
+Lemma jplaceholders_tabfix : forall segs k, map tabfix (jplaceholders_raw k segs) = jplaceholders k segs.
+Proof.
+  induction segs as [|[c|q0 b] r IH]; intro k; [reflexivity| |].
+  - cbn [jplaceholders_raw jplaceholders]. rewrite map_app, IH. reflexivity.
+  - cbn [jplaceholders_raw jplaceholders]. rewrite map_app, IH, placeholder_no_tab. reflexivity.
+Qed.
+
+Theorem literals_opaque_js : forall segs, jwf_segs segs ->
+  separate_string_literals LJs (jrender segs) = (jplaceholders 0 segs, jliterals segs).
+Proof.
+  intros segs H. unfold separate_string_literals. cbn [lit_match]. rewrite (jsep_segments segs 0 H).
+  rewrite jplaceholders_tabfix. reflexivity.
+Qed.
+
+(* the finding D13 as a lemma about the OLD scanner's input: with the fixed scanner the query text
+   select DQ a \ \ DQ where a1 != DQ z DQ  separates into the two literals (the old regex merged them) *)
+Definition ex_jsegs : list jseg := [JCode ($"select "); JLit QT [97; BSL; BSL]; JCode ($" where a1 != "); JLit QT [122]].
+Example literals_opaque_js_example :
+  jwf_segs ex_jsegs /\
+  separate_string_literals LJs (jrender ex_jsegs) =
+    ($"select ___RBQL_STRING_LITERAL0___ where a1 != ___RBQL_STRING_LITERAL1___", [[QT; 97; BSL; BSL; QT]; [QT; 122; QT]]).
+Proof.
+  split; [|vm_compute; reflexivity]. unfold ex_jsegs.
+  apply jwf_code; [repeat split; intro H; cbn in H; repeat destruct H as [H|H]; try discriminate; contradiction|].
+  apply jwf_lit; [right; left; reflexivity | | ].
+  { apply (jb_cons QT [97] [BSL; BSL]); [apply jit_plain; discriminate|]. apply (jb_cons QT [BSL; BSL] []); [apply jit_esc | apply jb_nil]. }
+  apply jwf_code; [repeat split; intro H; cbn in H; repeat destruct H as [H|H]; try discriminate; contradiction|].
+  apply jwf_lit; [right; left; reflexivity | | apply jwf_nil].
+  apply (jb_cons QT [122] []); [apply jit_plain; discriminate | apply jb_nil].
+Qed.
